@@ -390,3 +390,8 @@ def run(chk):
               isinstance(n.ctx, ast.Store) and n.attr in ('_encoding_chars',)]
     chk.ob('C07-I', 'no element keeps a private copy of the encoding characters', not stores, 'stored in %s' % stores, elem.module.relpath,
            key='C07-I|no-copy')
+
+    chk.rule('C07-G', 'invalid delimiter sets are refused under the same conditions as in the reviewed tree (missing role, duplicate, wrong number of characters for the version)')
+    from . import guardrules
+    ng_ = guardrules.check(chk, c, 'C07-G', ['__init__.check_encoding_chars', 'parser._split_msh'])
+    chk.floor('refusal predicates compared (C07-G)', ng_, 1)
